@@ -316,7 +316,7 @@ class Explorer:
         """Explicit case splits requested by the contract: list of dict param -> concrete value spec."""
         out = [{}]
         for p in c.split:
-            tstr = c.params[p]
+            tstr = c.params[p] if p in c.params else c.overrides[p]     # a field path listed in `overrides`
             t = self.types.parse_str(tstr, info.module.name if info else None, info.cls if info else None)
             alts = []
             if t[0] == 'enum':
@@ -338,6 +338,8 @@ class Explorer:
         cls = info.cls if info else None
         for k, v in c.overrides.items():
             self.overrides[k] = self.types.parse_str(v, modname, cls)
+            if k in case and case[k][0] == 'alt':          # case split on an overridden field type
+                self.overrides[k] = self.overrides[k][1][case[k][1]]
         bound = {}
         P.param_types = {}
         is_init = info is not None and info.name == '__init__'
@@ -489,8 +491,27 @@ class Explorer:
             g = z3.BoolVal(False)
         else:
             g = as_z3bool(goal)
+        if not skip_first and self.current is not None and self.current.opts.get('light_first', False):
+            # stage 0 (opt-in): only the hypotheses free of pow2/bl/div terms.  Dropping hypotheses is sound;
+            # it keeps goals of plain linear arithmetic away from an irrelevant non-linear context.
+            light = [f for f in facts_pc if not self._is_heavy_formula(f)]
+            if len(light) < len(facts_pc):
+                s0 = z3.Solver()
+                s0.set('timeout', 2000)
+                for f in light:
+                    s0.add(f)
+                s0.add(z3.Not(g))
+                for a_ in theory.instantiate(light + [z3.Not(g)])[0]:
+                    s0.add(a_)
+                self.stats['queries'] += 1
+                if s0.check() == z3.unsat:
+                    return 'unsat', time.time() - t0, 'z3-light', None
         formulas = list(facts_pc) + [z3.Not(g)]
-        ax, _ = theory.instantiate(formulas)
+        if self.current is not None and self.current.opts.get('theory_light', False):
+            # opt-in: one round, no product-splitting schemas (queries whose pow2 terms share one grid exponent)
+            ax, _ = theory.instantiate(formulas, rounds=1, heavy=False)
+        else:
+            ax, _ = theory.instantiate(formulas)
         s = z3.Solver()
         s.set('timeout', timeout_ms or self.timeout_ms)
         for f in formulas:
@@ -527,6 +548,11 @@ class Explorer:
             if r2 == z3.sat:
                 r = r2
         return ('sat' if r == z3.sat else 'unknown'), time.time() - t0, 'z3', smt2
+
+    @staticmethod
+    def _is_heavy_formula(f) -> bool:
+        p2, bls, dms, ipows = theory._collect1(f)
+        return bool(p2 or bls or dms or ipows)
 
     def _cvc5(self, smt2: str, tlimit_ms=20000):
         try:
